@@ -19,19 +19,19 @@ type Options struct {
 
 // Exec generates the verification condition of one function under contract.
 type Exec struct {
-	prog     *Program
-	vc       *VC
-	opts     Options
-	contract *Contract
-	fn       *ssa.Function
-	track    *effects // non-nil during a dry run
-	dry      int
-	props    []string
-	specDepth int
-	views    map[string]PtrV // array-field views: view ref symbol -> the field they snapshot
-	curState *State
-	curFrame *Frame
-	entryState *State
+	prog         *Program
+	vc           *VC
+	opts         Options
+	contract     *Contract
+	fn           *ssa.Function
+	track        *effects // non-nil during a dry run
+	dry          int
+	props        []string
+	specDepth    int
+	views        map[string]PtrV // array-field views: view ref symbol -> the field they snapshot
+	curState     *State
+	curFrame     *Frame
+	entryState   *State
 	recoveredArg *Term // recover() value handed to a deferred call applied by contract
 	topRecovered *Term // for a function verified on its own: the symbolic value recover() returns
 }
